@@ -44,6 +44,15 @@ pub struct C13Case {
     /// drive setup / dispose through the dispatcher's `RunNow` implementation
     #[serde(default)]
     pub via_trait: bool,
+    /// convert the dispatcher to its sendable form (possible when it has no top-level thread-local
+    /// system) and call setup / dispose from a thread other than the one that built it
+    #[serde(default)]
+    pub other_thread: bool,
+}
+
+enum Disp {
+    Local(shred::Dispatcher<'static, 'static>),
+    Sendable(shred::SendDispatcher<'static>),
 }
 
 pub struct C13 {
@@ -95,7 +104,7 @@ impl Prop for C13 {
         "C13"
     }
     fn rule(&self) -> &'static str {
-        "plans with batches nested 0..3 deep, thread-local systems and many static SystemData shapes (default-providing Read/Write, Option, ReadExpect/WriteExpect, a custom counting SetupHandler, derive struct) x a world in which a generated subset of the 32 resources pre-exists with generated values x a history of 1..3 setup calls interleaved with inserts / removes and moves of the world value to another address, then dispose; oracle: every setup call increments the setup counter of every system at any depth by exactly 1 and calls each custom handler once per member, afterwards every default-provided resource exists, every value that existed before the call is bit-identical, nothing else was created; dispose increments every system's dispose counter exactly once; non-trivial = >= 1 batch with >= 1 inner system and >= 1 pre-existing resource; distinct = hash of the case"
+        "plans with batches nested 0..3 deep, thread-local systems and many static SystemData shapes (default-providing Read/Write, Option, ReadExpect/WriteExpect, a custom counting SetupHandler, derive struct) x a world in which a generated subset of the 32 resources pre-exists with generated values x a history of 1..3 setup calls interleaved with inserts / removes and moves of the world value to another address, then dispose; one case in four with no top-level thread-local system converts the dispatcher to its sendable form and calls setup / dispose from another thread; oracle: every setup call increments the setup counter of every system at any depth by exactly 1 and calls each custom handler once per member, afterwards every default-provided resource exists, every value that existed before the call is bit-identical, nothing else was created; dispose increments every system's dispose counter exactly once; non-trivial = >= 1 batch with >= 1 inner system and >= 1 pre-existing resource; distinct = hash of the case"
     }
     fn gen(&self, src: &mut Src) -> C13Case {
         let plan = gen_plan(src, &self.cfg);
@@ -127,11 +136,13 @@ impl Prop for C13 {
             steps.push(SetupStep::MoveWorld);
         }
         let via_trait = src.chance(6, 16);
+        let other_thread = src.chance(4, 16);
         C13Case {
             plan,
             preexisting,
             steps,
             via_trait,
+            other_thread,
         }
     }
     fn check(&self, case: &C13Case, lane: usize, st: &mut Stats) -> Result<(), Fail> {
@@ -150,6 +161,18 @@ impl Prop for C13 {
             res::insert(&mut world, *r, *v);
         }
         b.ctx.reset_counters();
+        let Built { d, ctx, .. } = b;
+        let mut disp = if case.other_thread && flat.builders[0].tls.is_empty() {
+            match d.try_into_sendable() {
+                Ok(sd) => Disp::Sendable(sd),
+                Err(d) => Disp::Local(d),
+            }
+        } else {
+            Disp::Local(d)
+        };
+        if matches!(disp, Disp::Sendable(_)) {
+            st.class("sendable_form_set_up_and_disposed_from_another_thread");
+        }
         let mut n_setup = 0u32;
         let mut moved_after_setup = false;
         for step in &case.steps {
@@ -167,27 +190,45 @@ impl Prop for C13 {
                 }
                 SetupStep::Setup => {
                     let before = world_contents(&world);
-                    let h0 = HANDLER_CALLS.with(|c| c.get());
-                    b.ctx.set_phase(PHASE_SETUP);
-                    let r = catch_unwind(AssertUnwindSafe(|| {
-                        if case.via_trait {
-                            shred::RunNow::setup(&mut b.d, &mut world)
-                        } else {
-                            b.d.setup(&mut world)
+                    ctx.set_phase(PHASE_SETUP);
+                    let (r, handler_calls) = match &mut disp {
+                        Disp::Local(d) => {
+                            let h0 = HANDLER_CALLS.with(|c| c.get());
+                            let r = catch_unwind(AssertUnwindSafe(|| {
+                                if case.via_trait {
+                                    shred::RunNow::setup(d, &mut world)
+                                } else {
+                                    d.setup(&mut world)
+                                }
+                            }));
+                            (r, HANDLER_CALLS.with(|c| c.get()) - h0)
                         }
-                    }));
-                    b.ctx.set_phase(PHASE_BUILD);
+                        Disp::Sendable(sd) => {
+                            let w: &mut World = &mut world;
+                            std::thread::scope(|sc| {
+                                sc.spawn(move || {
+                                    // the handler counter is per thread
+                                    let h0 = HANDLER_CALLS.with(|c| c.get());
+                                    let r = catch_unwind(AssertUnwindSafe(|| sd.setup(w)));
+                                    (r, HANDLER_CALLS.with(|c| c.get()) - h0)
+                                })
+                                .join()
+                                .expect("harness: setup thread")
+                            })
+                        }
+                    };
+                    ctx.set_phase(PHASE_BUILD);
                     if let Err(p) = r {
                         return Err(Fail::new(format!("setup panicked: {}", panic_msg(&p))));
                     }
                     n_setup += 1;
                     moved_after_setup = false;
-                    let h1 = HANDLER_CALLS.with(|c| c.get());
+                    let (h0, h1) = (0, handler_calls);
                     for s in &flat.sys {
                         if s.is_batch {
                             continue; // controllers have no setup hook of their own
                         }
-                        let got = b.ctx.setup[s.idx].load(SeqCst);
+                        let got = ctx.setup[s.idx].load(SeqCst);
                         if got != n_setup {
                             return Err(Fail::new(format!(
                                 "after {} setup call(s) the setup of system {}{} was called {} times",
@@ -245,14 +286,23 @@ impl Prop for C13 {
             }
         }
         // dispose hands every system to its dispose hook exactly once
-        let Built { d, ctx, .. } = b;
-        let r = catch_unwind(AssertUnwindSafe(|| {
-            if case.via_trait {
-                shred::RunNow::dispose(Box::new(d), &mut world)
-            } else {
-                d.dispose(&mut world)
+        let r = match disp {
+            Disp::Local(d) => catch_unwind(AssertUnwindSafe(|| {
+                if case.via_trait {
+                    shred::RunNow::dispose(Box::new(d), &mut world)
+                } else {
+                    d.dispose(&mut world)
+                }
+            })),
+            Disp::Sendable(sd) => {
+                let w: &mut World = &mut world;
+                std::thread::scope(|sc| {
+                    sc.spawn(move || catch_unwind(AssertUnwindSafe(|| sd.dispose(w))))
+                        .join()
+                        .expect("harness: dispose thread")
+                })
             }
-        }));
+        };
         if let Err(p) = r {
             return Err(Fail::new(format!("dispose panicked: {}", panic_msg(&p))));
         }
